@@ -9,7 +9,7 @@ PROP = "C02"
 PROPS_V = "theories/Props/C02.v"
 THEOREMS = ["C02_collect_zones_sound_notfree", "C02_collect_zones_not_refuted", "C02_exact_refuted",
             "C02_exact_outside_known", "C02_layout_independent", "C02_outside_known_example",
-            "C02_known_classes_witnessed"]
+            "C02_layout_independent_example", "C02_known_classes_witnessed"]
 RULE = ("engine level: generated schemas over int/u64/float/string/bool/enum/datetime/optional fields, generated event "
         "multisets (3 batches, contexts c1..c3) and generated predicates (all six operators, IN, AND/OR/NOT nesting, negative "
         "numbers, decimal literals, unknown enum variants, absent values, numeric-looking strings, FOR); every query is asked "
